@@ -85,6 +85,11 @@ CHECKS = {
         technique="translation validation under a TLA+ operational semantics (Machine.tla gives scf.if/for/while and cf their own semantics); before/after programs of the real lowering / loop passes executed by TLC",
         text="Generated programs with nested scf.for/scf.if, an exhaustive family of constant-bound loops (lb -2..3, ub -1..5, step 1..3), loop nests with used/unused induction variables and effects in the body, and range-folding shapes with constant and symbolic factors are run through convert-scf-to-cf, scf-for-loop-range-folding, scf-for-loop-flatten, licm and control-flow-hoist; TLC executes before/after on boundary/random inputs and compares results and the ordered effect log.",
         note="Trusted: Machine.tla. lower-affine, scf-for-loop-unroll and frontend-desymrefy are not exercised (no affine/symref program generator). One open finding (range folding with non-positive factor)."),
+    "C19": dict(
+        category="exploration", design_ref="DESIGN.md §3.7, §4 C19",
+        technique="TLA+ register-file execution of allocated blocks (RegAlloc.tla: the register file remembers which value each register holds) evaluated by TLC on the assignments produced by the real allocators",
+        text="Seeded single-block functions are allocated by the real RegisterAllocatorLivenessBlockNaive (RISC-V li/add/sub/mul/mv, pre-allocated arguments and results, zero constants, pools of 1-6 registers with and without infinite registers) and by BlockNaiveAllocator on test.allocatable ops with in/out/inout constraints; TLC executes each allocated block on a value-tracking register file: every operand must still be in its register when read, results of one op are in distinct registers, in/out pairs share a register, pre-assigned registers are kept, new registers come from the allocatable pool, only constant zero lives in `zero`.",
+        note="Trusted: RegAlloc.tla; extraction of in/out/inout constraints through get_register_constraints(); generated inputs satisfy the allocator's documented precondition (an inout operand is used for the last time there; no conflicting pre-assignments). OutOfRegisters/diagnostics are reported failures. riscv_scf.for nests and the x86 allocator are not generated yet."),
 }
 
 NOT_APPLICABLE = {
